@@ -48,6 +48,11 @@ def input_for(kind: str, arity: int) -> list[list]:
             st = (I(f"http://a/s{i % 50}"), I("http://a/p"), L(str(i)))
             out.append(st if arity == 3 else (*st, I("http://a/g")))
         return [out]
+    if kind == "many_graphs":
+        # more quads than any batch size, a handful of graph names that keep coming back
+        gs = [I("http://a/g1"), DEFAULT, I("http://a/g2"), B("g")]
+        return [[(I(f"http://a/s{i % 50}"), I("http://a/p"), L(str(i)), gs[(i // 3) % 4])
+                 for i in range(6000)]]
     if kind == "wrong_arity":
         # triples handed to a quad/graph stream, quads to a triple stream: cannot be honoured
         # as given (a TRIPLES stream may legitimately drop the graph names, see run_case)
@@ -136,6 +141,8 @@ def build(case: dict, opts=None, poison: bool = False):
 
     empty = DR.EMPTY_GRAPHS if case.get("empty_graphs") else ()
     order = case.get("empty_graphs") or None  # "empty-first" / "empty-last"
+    if order == "empty-default-union":
+        order = "default-union"
     if entry == "stream_frames_gen":
         stream = DR.r_stream(cls, opts)
         stmts = [T.st_to_rdflib(s) for s in flat]
@@ -463,7 +470,8 @@ def all_points(frame_sizes) -> list:
                                                     "recurring_graph", False))
                                         if api == "rdflib" and entry not in ("stream_frames_gen",
                                                                              "flat_to_file"):
-                                            for order in ("empty-first", "empty-last"):
+                                            for order in ("empty-first", "empty-last",
+                                                          "empty-default-union"):
                                                 pts.append((api, entry, cls, lt, dl, fs, flow,
                                                             "five", order))
                                 if flow != "inferred" and fs == 2:
@@ -485,6 +493,11 @@ def all_points(frame_sizes) -> list:
                                     pts.append((api, entry, cls, lt, dl, fs, flow, "huge", False))
                                 if flow == "inferred" and fs in (2, 250) and lt in (0, 1, 2):
                                     pts.append((api, entry, cls, lt, dl, fs, flow, "wrong_arity",
+                                                False))
+                                if (fs == 250 and lt in (0, 2) and cls == "graph" and dl
+                                        and flow == "inferred"
+                                        and entry in ("stream_frames_gen",)):
+                                    pts.append((api, entry, cls, lt, dl, fs, flow, "many_graphs",
                                                 False))
                                 if (fs == 250 and lt == 1 and api == "generic" and cls == "triple"
                                         and flow in ("inferred", "BoundedFrameFlow")
